@@ -87,8 +87,8 @@ impl Op {
     }
     /// Coq term of type `op` (Ns/Model_Namespace.v)
     pub fn coq(&self) -> String {
-        let id = |i: &Id| coq::list(i.iter().map(|s| coq::str_bytes(s)));
-        let tok = |t: &Option<String>| coq::opt(t.as_ref().map(|s| coq::str_bytes(s)));
+        let id = |i: &Id| coq::list(i.iter().map(|s| str_cps(s)));
+        let tok = |t: &Option<String>| coq::opt(t.as_ref().map(|s| str_cps(s)));
         let lim = |l: &Option<i32>| coq::opt(l.map(|x| coq::z(x as i128)));
         match self {
             Op::CreateNs(i) => format!("(OCreateNs {})", id(i)),
@@ -102,10 +102,15 @@ impl Op {
             Op::TableExists(i) => format!("(OTableExists {})", id(i)),
             Op::DescribeTable(i) => format!("(ODescribeTable {})", id(i)),
             Op::ListTables(i, t, l) => format!("(OListTables {} {} {})", id(i), tok(t), lim(l)),
-            Op::RegisterTable(i, loc) => format!("(ORegisterTable {} {})", id(i), coq::str_bytes(loc)),
+            Op::RegisterTable(i, loc) => format!("(ORegisterTable {} {})", id(i), str_cps(loc)),
             Op::DeregisterTable(i) => format!("(ODeregisterTable {})", id(i)),
         }
     }
+}
+
+/// a string as the Coq list of its Unicode scalar values (the model's `str`)
+pub fn str_cps(s: &str) -> String {
+    coq::list(s.chars().map(|c| coq::n(c as u64)))
 }
 
 /// error kinds (lance_core::Error variant)
@@ -123,7 +128,8 @@ pub enum Ans {
     Names(Vec<String>),
     /// create/describe/drop/register/deregister of a table: canonical location (relative to the root,
     /// random hash replaced by `#`), and for describe_table whether a version (= an openable dataset) was reported
-    Loc(String, bool),
+    /// third field: the raw relative location (with the real hash), used by the reference only
+    Loc(String, bool, String),
     /// Err(kind)
     Fail(u64),
     /// panic
@@ -134,7 +140,7 @@ impl Ans {
         match self {
             Ans::Done => json!("ok"),
             Ans::Names(v) => json!({"names": v}),
-            Ans::Loc(l, v) => json!({"location": l, "has_version": v}),
+            Ans::Loc(l, v, _) => json!({"location": l, "has_version": v}),
             Ans::Fail(k) => json!({"err": k}),
             Ans::Panic => json!("panic"),
         }
@@ -142,8 +148,8 @@ impl Ans {
     pub fn coq(&self) -> String {
         match self {
             Ans::Done => "ADone".into(),
-            Ans::Names(v) => format!("(ANames {})", coq::list(v.iter().map(|s| coq::str_bytes(s)))),
-            Ans::Loc(l, v) => format!("(ALoc {} {})", coq::str_bytes(l), coq::b(*v)),
+            Ans::Names(v) => format!("(ANames {})", coq::list(v.iter().map(|s| str_cps(s)))),
+            Ans::Loc(l, v, _) => format!("(ALoc {} {})", str_cps(l), coq::b(*v)),
             Ans::Fail(k) => format!("(AFail {})", k),
             Ans::Panic => "APanic".into(),
         }
@@ -208,24 +214,39 @@ impl Catalog {
         b.build().await.unwrap()
     }
 
-    /// location relative to the root; `<8 hex>_` of hash-named directories becomes `#_`
-    pub fn canon_loc(&self, loc: &str) -> String {
-        let root_plain = self.root.to_str().unwrap();
-        let rel = if let Some(r) = loc.strip_prefix(&self.root_url) {
-            format!("u:{}", r)
-        } else if let Some(r) = loc.strip_prefix(root_plain) {
-            format!("p:{}", r.strip_prefix('/').unwrap_or(r))
+    /// (canonical location, raw relative location).  Canonical = the directory relative to the root,
+    /// lexically normalised, `../` per level above the root (inside the sandbox), "abs" for anything
+    /// outside the sandbox; the `<8 hex>` of a hash-named directory becomes `#`.
+    pub fn canon_loc(&self, loc: &str) -> (String, String) {
+        let decode = |s: &str| percent_decode(s);
+        let tmp_url = url::Url::from_directory_path(self._tmp.path()).unwrap().to_string();
+        let rel: Option<String> = if let Some(r) = loc.strip_prefix(&self.root_url) {
+            Some(decode(r))
+        } else if loc == self.root_url.trim_end_matches('/') {
+            Some(String::new())
+        } else if let Some(r) = loc.strip_prefix(&format!("{}s1/s2/", tmp_url)) {
+            Some(format!("../{}", decode(r)))
+        } else if let Some(r) = loc.strip_prefix(&format!("{}s1/", tmp_url)) {
+            Some(format!("../../{}", decode(r)))
+        } else if let Some(r) = loc.strip_prefix(&tmp_url) {
+            Some(format!("../../../{}", decode(r)))
+        } else if let Some(r) = loc.strip_prefix(self.root.to_str().unwrap()) {
+            Some(r.to_string()) // plain path (directory mode): not percent-encoded
         } else {
-            format!("abs:{}", loc)
+            None
         };
-        let (tag, body) = rel.split_once(':').unwrap();
-        let b = body.as_bytes();
-        let hashed = b.len() >= 9 && b[..8].iter().all(|c| c.is_ascii_digit() || (b'a'..=b'f').contains(c)) && b[8] == b'_';
-        if hashed {
-            format!("{}:#{}", tag, &body[8..])
-        } else {
-            format!("{}:{}", tag, body)
+        match rel {
+            None => ("abs".to_string(), loc.to_string()),
+            Some(r) => {
+                let raw = lexical_normalise(&r);
+                (canon_rel(&raw), raw)
+            }
         }
+    }
+
+    fn loc_ans(&self, loc: &str, v: bool) -> Ans {
+        let (c, raw) = self.canon_loc(loc);
+        Ans::Loc(c, v, raw)
     }
 
     pub async fn run(&self, op: &Op) -> Ans {
@@ -269,17 +290,17 @@ impl Catalog {
             Op::CreateEmptyTable(i) => {
                 let mut r = CreateEmptyTableRequest::new();
                 r.id = sid(i);
-                ns.create_empty_table(r).await.map(|x| Ans::Loc(self.canon_loc(&x.location.unwrap_or_default()), false)).unwrap_or_else(fail)
+                ns.create_empty_table(r).await.map(|x| self.loc_ans(&x.location.unwrap_or_default(), false)).unwrap_or_else(fail)
             }
             Op::CreateTable(i) => {
                 let mut r = CreateTableRequest::new();
                 r.id = sid(i);
-                ns.create_table(r, ipc_data()).await.map(|x| Ans::Loc(self.canon_loc(&x.location.unwrap_or_default()), x.version.is_some())).unwrap_or_else(fail)
+                ns.create_table(r, ipc_data()).await.map(|x| self.loc_ans(&x.location.clone().unwrap_or_default(), x.version.is_some())).unwrap_or_else(fail)
             }
             Op::DropTable(i) => {
                 let mut r = DropTableRequest::new();
                 r.id = sid(i);
-                ns.drop_table(r).await.map(|x| Ans::Loc(self.canon_loc(&x.location.unwrap_or_default()), false)).unwrap_or_else(fail)
+                ns.drop_table(r).await.map(|x| self.loc_ans(&x.location.unwrap_or_default(), false)).unwrap_or_else(fail)
             }
             Op::TableExists(i) => {
                 let mut r = TableExistsRequest::new();
@@ -289,7 +310,7 @@ impl Catalog {
             Op::DescribeTable(i) => {
                 let mut r = DescribeTableRequest::new();
                 r.id = sid(i);
-                ns.describe_table(r).await.map(|x| Ans::Loc(self.canon_loc(&x.location.unwrap_or_default()), x.version.is_some())).unwrap_or_else(fail)
+                ns.describe_table(r).await.map(|x| self.loc_ans(&x.location.clone().unwrap_or_default(), x.version.is_some())).unwrap_or_else(fail)
             }
             Op::ListTables(i, t, l) => {
                 let mut r = ListTablesRequest::new();
@@ -301,12 +322,12 @@ impl Catalog {
             Op::RegisterTable(i, loc) => {
                 let mut r = RegisterTableRequest::new(loc.clone());
                 r.id = sid(i);
-                ns.register_table(r).await.map(|x| Ans::Loc(format!("r:{}", x.location), false)).unwrap_or_else(fail)
+                ns.register_table(r).await.map(|x| Ans::Loc(format!("r:{}", canon_rel(&x.location)), false, x.location.clone())).unwrap_or_else(fail)
             }
             Op::DeregisterTable(i) => {
                 let mut r = DeregisterTableRequest::new();
                 r.id = sid(i);
-                ns.deregister_table(r).await.map(|x| Ans::Loc(self.canon_loc(&x.location.unwrap_or_default()), false)).unwrap_or_else(fail)
+                ns.deregister_table(r).await.map(|x| self.loc_ans(&x.location.unwrap_or_default(), false)).unwrap_or_else(fail)
             }
         }
     }
@@ -323,6 +344,55 @@ pub fn run_op(rt: &tokio::runtime::Runtime, cat: &Catalog, op: &Op) -> Ans {
     match hxlib::util::catch(|| rt.block_on(cat.run(op))) {
         Ok(a) => a,
         Err(_) => Ans::Panic,
+    }
+}
+
+pub fn percent_decode(s: &str) -> String {
+    let b = s.as_bytes();
+    let mut out = Vec::with_capacity(b.len());
+    let mut i = 0;
+    let hex = |c: u8| (c as char).to_digit(16);
+    while i < b.len() {
+        if b[i] == b'%' && i + 2 < b.len() {
+            if let (Some(h), Some(l)) = (hex(b[i + 1]), hex(b[i + 2])) {
+                out.push((h * 16 + l) as u8);
+                i += 3;
+                continue;
+            }
+        }
+        out.push(b[i]);
+        i += 1;
+    }
+    String::from_utf8_lossy(&out).to_string()
+}
+
+/// drop empty and "." segments, resolve ".." lexically (kept when it climbs above the start)
+pub fn lexical_normalise(rel: &str) -> String {
+    let mut st: Vec<&str> = vec![];
+    for seg in rel.split('/') {
+        match seg {
+            "" | "." => {}
+            ".." => {
+                if matches!(st.last(), Some(&x) if x != "..") {
+                    st.pop();
+                } else {
+                    st.push("..");
+                }
+            }
+            x => st.push(x),
+        }
+    }
+    st.join("/")
+}
+
+/// `<8 hex>_rest` -> `#_rest`
+pub fn canon_rel(raw: &str) -> String {
+    let b = raw.as_bytes();
+    let hashed = b.len() >= 9 && b[..8].iter().all(|c| c.is_ascii_digit() || (b'a'..=b'f').contains(c)) && b[8] == b'_';
+    if hashed {
+        format!("#{}", &raw[8..])
+    } else {
+        raw.to_string()
     }
 }
 
